@@ -112,8 +112,15 @@ func ccSample(rng *rand.Rand, n *syntax.RegexNode, alpha []rune, out *[]rune, de
 			*out = append(*out, '\n')
 		}
 	case syntax.NtConcatenate:
-		for i := range n.Children {
-			sub(i)
+		// under RightToLeft the parser stores the children in reverse
+		if n.Options&syntax.RightToLeft != 0 {
+			for i := len(n.Children) - 1; i >= 0; i-- {
+				sub(i)
+			}
+		} else {
+			for i := range n.Children {
+				sub(i)
+			}
 		}
 	case syntax.NtAlternate:
 		if len(n.Children) > 0 {
@@ -338,7 +345,7 @@ func ccCheck(c *core.Ctx, cases []wrCase) []core.Outcome {
 		}
 		p := &ccPending{ci: ci, tree: tree, info: wrInfo(tree), node: wrNode(tree.Root, map[string]bool{}),
 			strict: core.SBool(regexp2.RegexOptions(cs.Opts)&(regexp2.RE2|regexp2.ECMAScript) != 0), gt: gen.FromGoTree(tree)}
-		if p.gt.Unsupported == "" && !p.gt.RTL {
+		if p.gt.Unsupported == "" {
 			p.inputs = ccInputs(cs, tree, p.gt.Runes)
 		}
 		pend = append(pend, p)
@@ -551,7 +558,7 @@ func ccCorpus() []wrCase {
 func ccLeg(c *core.Ctx, quick, thorough int) {
 	core.RunLeg(c, core.Leg[wrCase]{
 		Name: "Cc", Kind: "correspondence(compile-correctness tie)",
-		Rule:   "patterns and option sets of leg Wr (same generator and corpus). For each: syntax.Parse; the root, (Captop, Capnumlist, Caps, RightToLeft) and the RE2|ECMAScript bit go to the Lean driver, which answers (a) the coverage class: the smallest k with Compile.InFrag k (the fragment of theorem compile_correct_T<k>), or the first thing in a pre-order walk that keeps the tree outside; (b) Compile.toPatRoot as an S-expression, which must equal the one gen.FromGoTree builds for the same tree (named-class ids in order of first use included) — trees FromGoTree rejects are bucketed (a covered one among them gets its environment rows from the category names the driver reports and is run in a second request); (c) for covered trees, on 3-4 inputs derived from the tree (≤ 8 runes, would-be matches, near misses, context) and EVERY start position (\\G there): VM.run on Writer.emit (sets read through Compile.readSet on the specification's environment, word characters and named-class rows from Go's unicode tables) against Spec.attempt on toPat — matched, the live prefix of every capture slot = slotLog, final text position; the specification's verdict and group 0 span must also equal regexp2's VerifAttemptAt on the compiled pattern (not compared for case-insensitive backreferences and for backreferences under ECMAScript: the statement's environment has toLower = id and ecma = false; attempts that exhaust the fuel of 20000 iterations are bucketed). non-trivial = covered; distinct by (options, pattern)",
+		Rule:   "patterns and option sets of leg Wr (same generator and corpus). For each: syntax.Parse; the root, (Captop, Capnumlist, Caps, RightToLeft) and the RE2|ECMAScript bit go to the Lean driver, which answers (a) the coverage class: the smallest k ≤ 9 with Compile.InFrag k (the fragments of the theorems compile_correct_T1..T3, T4a..T4e = tiers 4..8; tier 9 = ECMAScript boundaries, defined, not proved), or the first thing in a pre-order walk that keeps the tree outside; (b) Compile.toPatRoot as an S-expression, which must equal the one gen.FromGoTree builds for the same tree (named-class ids in order of first use included) — trees FromGoTree rejects are bucketed (a covered one among them gets its environment rows from the category names the driver reports and is run in a second request); (c) for covered trees, on 3-4 inputs derived from the tree (≤ 8 runes, would-be matches, near misses, context) and EVERY start position (\\G there): VM.run on Writer.emit (sets read through Compile.readSet on the specification's environment, word characters and named-class rows from Go's unicode tables) against Spec.attempt on toPat in the direction of the tree option RightToLeft — matched, the live prefix of every capture slot = slotLog, final text position; the specification's verdict and group 0 span must also equal regexp2's VerifAttemptAt on the compiled pattern (not compared for case-insensitive backreferences and for backreferences under ECMAScript: the statement's environment has toLower = id and ecma = false; attempts that exhaust the fuel of 20000 iterations are bucketed). non-trivial = covered; distinct by (options, pattern)",
 		Corpus: ccCorpus(), N: c.N(quick, thorough), Gen: wrGen, Check: ccCheck, Batch: 500,
 	})
 }
